@@ -254,9 +254,10 @@ def transition(ref, op):
             new.sens = None
             return None, new
         if ref.reduced:
-            if not ref.free_params():
-                return 'ValueError', None
             new.sens = 'all'
+            if not ref.free_params():
+                # no free parameter: whatever a fresh model does is right
+                return 'ask_fresh', new
             return None, new
         if op.get('names') is None:
             new.sens = 'all'
@@ -279,9 +280,9 @@ def transition(ref, op):
                 else:
                     new.fixed[n] = float(v)
         if ref.sens is not None and not new.free_params():
-            # chi raises after the mask was updated; the state after a failed
-            # call is not defined by the property: not executed
-            return 'skip', None
+            # if a fresh model raises here, the state after the failed call
+            # is not defined by the property: then it is not executed
+            return 'ask_fresh_or_skip', new
         return None, new
     if k == 'copy':
         new.sens = None
@@ -446,6 +447,16 @@ def run(scenario, world):
             refs[new_h] = new
         else:
             exp, new = transition(ref, op)
+            if exp in ('ask_fresh', 'ask_fresh_or_skip'):
+                was = world.faults_enabled
+                world.faults_enabled = False
+                f = call(ref.fresh)
+                fr = call(zoo.apply_mech_op, f, op) if not is_exc(f) else f
+                world.faults_enabled = was
+                if is_exc(fr):
+                    exp = 'skip' if exp == 'ask_fresh_or_skip' else fr.type
+                else:
+                    exp = None
             if exp == 'skip':
                 world.log('skip', step)
                 continue
